@@ -3,6 +3,7 @@ package table
 import (
 	"fmt"
 	"reflect"
+	"sync/atomic"
 	"testing"
 	"time"
 
@@ -26,6 +27,10 @@ type lifeCycle struct {
 	closedAt  int // event seq at which the harness closed/released the table between hands (0 = not)
 	external  bool
 	override  string // when set, every failure of the automaton is reported under this one signature
+	// the harness closed the table at a moment that certainly precedes the engine's next
+	// continue step (inside the settled notification, or < 0.9 s into a 1 s continue delay):
+	// from then on nothing but "closed" may be published (set from callbacks: atomic)
+	closedFirm int32
 }
 
 func statusClass(st pokertable.TableStateStatus) string {
@@ -63,6 +68,11 @@ func (l *lifeCycle) step(s *sim.Sim, e *sim.Event, standbySeen bool) {
 	}
 	if l.external && (to == "idle" || to == "closed") {
 		ok = true // an external pause / close request
+	}
+	if from == "closed" && to != "closed" && atomic.LoadInt32(&l.closedFirm) == 1 {
+		// not a move of the life cycle and not the effect of an external request either: the
+		// engine's own continue step ran after the close and did not respect it
+		l.c.Failf("C07.left-closed."+to, "the table was closed before the continue step of the settled hand could run, yet afterwards its status moved from %s to %s (event %s %s)", l.last, t.State.Status, e.Kind, e.Name)
 	}
 	if from == "closed" && to == "closed" {
 		ok = true
@@ -188,6 +198,7 @@ func c07BodyOpt(c *run.Ctx, interval int, forceNoHold bool) {
 	}
 	// control operations
 	closeInCB := false
+	breakBeforeClose := false
 	setupInCB := false
 	holdCB := false
 	hooks.Fence = func(s *sim.Sim, h *sim.Hand) {
@@ -224,7 +235,13 @@ func c07BodyOpt(c *run.Ctx, interval int, forceNoHold bool) {
 		s.InCallback = func(sm *sim.Sim, name string, t *pokertable.Table) {
 			if closeInCB && name == pokertable.TableStateEvent_GameSettled {
 				closeInCB = false
+				if breakBeforeClose {
+					// the level becomes a break first: the continue step would pause, were the table not closed
+					b := sm.Cfg.Blind
+					sm.TE.UpdateBlind(-1, b.Ante, b.Dealer, b.SB, b.BB)
+				}
 				sm.TE.CloseTable()
+				atomic.StoreInt32(&l.closedFirm, 1)
 			}
 			if setupInCB && name == pokertable.TableStateEvent_GameSettled {
 				// the competition side arms the next hand from the settlement notification and
@@ -260,16 +277,24 @@ func c07BodyOpt(c *run.Ctx, interval int, forceNoHold bool) {
 		}
 		time.Sleep(time.Duration(delayOffset) * 100 * time.Millisecond)
 		switch delayOp {
-		case "close", "release":
+		case "close", "release", "break_close":
 			l.external = true
 			var err error
-			if delayOp == "close" {
+			if delayOp == "break_close" {
+				b := s.Cfg.Blind
+				s.API.UpdateBlind(-1, b.Ante, b.Dealer, b.SB, b.BB)
+				c.Ch.Note("  UpdateBlind(-1) at the start of the continue delay")
+			}
+			if delayOp != "release" {
 				err = s.API.CloseTable()
+				if err == nil && time.Since(h.SettledAt) < 900*time.Millisecond {
+					atomic.StoreInt32(&l.closedFirm, 1)
+				}
 			} else {
 				err = s.API.ReleaseTable()
 			}
 			c.Ch.Note("  %s %d00 ms into the continue delay -> %v", delayOp, delayOffset, err)
-			noOpenAfter, noOpenWhy = s.EventsTotal(), delayOp+"d"
+			noOpenAfter, noOpenWhy = s.EventsTotal(), map[string]string{"close": "closed", "release": "released", "break_close": "closed"}[delayOp]
 		case "break":
 			b := s.Cfg.Blind
 			s.API.UpdateBlind(-1, b.Ante, b.Dealer, b.SB, b.BB)
@@ -294,7 +319,9 @@ func c07BodyOpt(c *run.Ctx, interval int, forceNoHold bool) {
 		}
 		if interval > 0 {
 			delayOp = ""
-			switch choose.Weighted(c.Ch, "delay.op", []int{3, 2, 2, 2, 3}) {
+			switch choose.Weighted(c.Ch, "delay.op", []int{3, 2, 2, 2, 3, 2}) {
+			case 5:
+				delayOp = "break_close"
 			case 1:
 				delayOp = "close"
 			case 2:
@@ -305,7 +332,7 @@ func c07BodyOpt(c *run.Ctx, interval int, forceNoHold bool) {
 				delayOp = "arrival"
 			}
 			delayOffset = c.Ch.Int("delay.offset", 0, 14) // up to 1.4 s: both sides of the 1 s delay
-			if delayOp == "close" || delayOp == "release" {
+			if delayOp == "close" || delayOp == "release" || delayOp == "break_close" {
 				s.FenceWait = 1500 * time.Millisecond
 			}
 			if delayOp != "" {
@@ -355,6 +382,7 @@ func c07BodyOpt(c *run.Ctx, interval int, forceNoHold bool) {
 		// close inside the settled callback of the coming hand (= during the continue delay)
 		if choose.Chance(c.Ch, "ctl.close.cb", 8) {
 			closeInCB = true
+			breakBeforeClose = choose.Chance(c.Ch, "ctl.close.cb.break", 50)
 			control = "close_in_settled_cb"
 			s.FenceWait = 400 * time.Millisecond
 			l.external = true
@@ -368,7 +396,7 @@ func c07BodyOpt(c *run.Ctx, interval int, forceNoHold bool) {
 			c.St.Case(s.Labels(), true, traceOf(s), sampleOf(s))
 			c.End()
 		}
-		if (delayOp == "close" || delayOp == "release" || delayOp == "break") && h.SettledT != nil {
+		if (delayOp == "close" || delayOp == "release" || delayOp == "break" || delayOp == "break_close") && h.SettledT != nil {
 			// whichever of the operation and the delayed continue step came first, no hand may
 			// open now; if the continue step won, the gate is armed: complete it and watch
 			if h.Outcome == "gate" {
@@ -391,6 +419,9 @@ func c07BodyOpt(c *run.Ctx, interval int, forceNoHold bool) {
 		}
 		if control == "close_in_settled_cb" && h.SettledT != nil {
 			s.Label("close_in_settled_cb")
+			if breakBeforeClose {
+				s.Label("close_in_settled_cb_on_a_break")
+			}
 			nontrivial = true
 			s.Drain()
 			noOpenAfter, noOpenWhy = s.EventsTotal(), "closed"
